@@ -41,8 +41,7 @@ def match_d8(payload):
     r = inp.get("rule")
     ds = r.get("dst") if isinstance(r, dict) else None
     return (payload.get("kind", "").startswith("implementation differs from the POSIX specification")
-            and inp.get("zone_kind") in ("tzstr", "tzrange") and _d8_outside(r)
-            and bool(ds) and ds["off"] > r["off"])
+            and inp.get("zone_kind") in ("tzstr", "tzrange") and _d8_outside(r) and bool(ds))
 
 
 def match_negative_dst(payload):
@@ -384,10 +383,12 @@ def check_rule(verdict, st, o, r, rng, years, idx, tier, do_local):
             st.evals += 1
             same = z2 is not None and zone_header(z2) == zone_header(z)
             if same and z.hasdst:
-                try:
-                    same = all(z2.transitions(y) == z.transitions(y) for y in (2023, 2024))
-                except Exception:
-                    same = True          # month 13 etc. raise for both alike; compared elsewhere
+                def _tr(zz, y):
+                    try:
+                        return zz.transitions(y)
+                    except Exception as ex:      # month 13 etc.: both forms must fail alike
+                        return ("exc", type(ex).__name__)
+                same = all(_tr(z2, y) == _tr(z, y) for y in (2023, 2024))
             if not same:
                 verdict.violation({"kind": "the %s form of the rule does not build the zone of the canonical "
                                            "string" % kind,
@@ -1027,7 +1028,11 @@ def main():
         "differential_only": ["_tzparser.parse outside the regenerated slices (tokeniser, outer abbreviation loop, "
                               "rule-count dispatch and its character filters, trailing daylight delta of the "
                               "deprecated format, unused-token check: hand model)",
-                              "tzlocal against real glibc (C library trusted)", "tzrange keyword styles",
+                              "tzlocal against real glibc (C library trusted; instants where glibc disagrees with "
+                              "the spec are skipped and counted: libc_vs_spec_disagreements)",
+                              "CPython's time module (init_timezone) is hand-modelled, compared on every tzlocal zone",
+                              "saving = 0 (outside guard_apart; generated and compared with the spec, no matcher)",
+                              "tzrange keyword styles",
                               "deprecated comma format of _tzparser", "non-ASCII input"],
         "known_findings_hit": verdict.known_hits,
         "known_finding_examples": verdict.known_examples,
